@@ -14,7 +14,7 @@ ID = "C19"
 READY = True
 LEVEL = "exploration"
 WORKERS = {"quick": 8, "thorough": 16}
-BUDGET = {"quick": 60, "thorough": 420}
+BUDGET = {"quick": 150, "thorough": 420}
 MIN_NONTRIVIAL = {"quick": 2000, "thorough": 40000}
 REQUIRED_HOOKS = ["relation", "q-contract", "duration-contract", "table-entry", "evaluate:I", "evaluate:C", "xlate.c7n_to_cel.C7N_Rewriter.q"]
 RULE = (
